@@ -406,6 +406,8 @@ pub fn corpus() -> Vec<String> {
         // F10, F11 tiny
         "1 sort bitvec 1\n2 input 1\n3 bad 2\n",
         "1 sort bitvec 2\n2 state 1\n3 not 1 2\n4 next 1 2 3\n5 output -3\n",
+        // F13 tiny: both extensions (small enough for the huge-width mutants of the quick tier)
+        "1 sort bitvec 4\n2 sort bitvec 6\n3 input 1\n4 uext 2 3 2\n5 sext 2 -3 2\n6 output 4\n7 output 5\n",
         // F12 comments, odd symbols, derived operators, signed division
         "; header comment\n1 sort bitvec 3 ; three bits\n2 input 1 $in.a[0]\n3 input 1 in/b\n4 nand 1 2 3\n5 nor 1 4 2\n6 xnor 1 5 3 named\n7 smod 1 6 2\n8 sdiv 1 7 3\n9 sort bitvec 1\n10 slte 9 8 2\n11 slt 9 2 3\n12 sgt 9 3 8\n13 ulte 9 2 7\n14 ugte 9 7 3\n15 output 10 o$1\n",
     ];
@@ -1124,12 +1126,12 @@ pub fn run(opts: &Opts, rep: &Report) {
     let mut singles: Vec<Mutant> = vec![];
     let mut by_size: Vec<&String> = corpus.iter().collect();
     by_size.sort_by_key(|t| (t.lines().count(), t.len()));
-    let smallest3: Vec<&String> = by_size.iter().take(3).copied().collect();
+    let smallest3: Vec<&String> = by_size.iter().take(4).copied().collect();
     let mut dropped_heavy = 0u64;
     for f in corpus.iter() {
         let mut ms = single_mutations(f, false, thorough);
         if !thorough && !smallest3.contains(&f) {
-            // quick tier: huge declared widths only on the three smallest corpus files
+            // quick tier: huge declared widths only on the four smallest corpus files
             let before = ms.len();
             ms.retain(|m| !is_heavy(&m.1));
             dropped_heavy += (before - ms.len()) as u64;
